@@ -44,10 +44,13 @@ class s_float(metaclass=_FloatMeta):
         return _b_float(x)
 
 
-def s_as_dec(value):
-    if isinstance(value, Sym):
-        return value
-    return decimal.Decimal(str(value))
+def make_as_dec(real_as_dec):
+    def s_as_dec(value):
+        # identity on Sym (a Sym already is the exact decimal); everything else goes through the real function
+        if isinstance(value, Sym):
+            return value
+        return real_as_dec(value)
+    return s_as_dec
 
 
 class SymList:
@@ -296,7 +299,7 @@ def installed(clock_modules=(), merge_minmax=True):
         used += ["float=identity-on-Sym (all flumine modules)"]
         if merge_minmax:
             used += ["min/max=ite-merge (all flumine modules)"]
-        inst.set(fu, "as_dec", s_as_dec)
+        inst.set(fu, "as_dec", make_as_dec(fu.as_dec))
         inst.set(fu, "len", s_len)
         inst.set(fu, "range", s_range)
         used += ["utils.as_dec=identity-on-Sym", "utils.len/range over SymSeq"]
